@@ -23,7 +23,7 @@ ID = 'C11'
 TECHNIQUE = 'explicit-state BFS over action sequences (integrator x filter stack per step) on the real step functions; invariants evaluated in every reached state'
 ASSUMPTIONS = [
     'bounded depth: every action sequence up to the stated depth, plus single-action chains to the stated length',
-    'roots: every state with <= 1 unit excitation (l <= 1, all levels and fields) plus shipped initial conditions with the top wavenumber clipped, plus a uniform tracer',
+    'roots: every state with <= 1 unit excitation (l <= 1, all levels and fields), one root per field with energy at the highest retained wavenumber l = L-2, the shipped initial conditions with the top wavenumber clipped, plus a uniform tracer',
     'rounding tolerance grows linearly with the number of steps',
 ]
 RULE = ('state = (configuration, action sequence) -> batch of model states, de-duplicated by a hash of all leaves; transitions = step applications; '
@@ -121,6 +121,14 @@ def work(unit, rec):
       s0 = s0.replace(vorticity=s0.vorticity.at[:, 0, 0].set(0.0), divergence=s0.divergence.at[:, 0, 0].set(0.0))
       extra_v.append(harness.to_real_layout(s0.vorticity, shape, impl)); extra_d.append(harness.to_real_layout(s0.divergence, shape, impl))
       extra_t.append(harness.to_real_layout(s0.temperature_variation, shape, impl)); extra_p.append(harness.to_real_layout(s0.log_surface_pressure, shape, impl))
+    # roots with energy at the highest retained total wavenumber l = L-2 (admissible: below the clipped one), one per field
+    for fi, fname in enumerate(('vorticity', 'divergence', 'temperature', 'lnps')):
+      z = {f: np.zeros((1 if f == 'lnps' else K, 2 * M - 1, L)) for f in ('vorticity', 'divergence', 'temperature', 'lnps')}
+      for i in (0, 1, 2 * M - 2):
+        z[fname][0, i, L - 2] = harness.UNIT_AMPLITUDE[fname] * (1.0 - 0.25 * i / (2 * M))
+        if fname != 'lnps':
+          z[fname][K - 1, i, L - 2] = -0.5 * harness.UNIT_AMPLITUDE[fname]
+      extra_v.append(z['vorticity']); extra_d.append(z['divergence']); extra_t.append(z['temperature']); extra_p.append(z['lnps'])
     cat = lambda a, ex: np.concatenate([a, np.stack(ex)], axis=0)
     vor, div, tmp, lps = cat(st['vorticity'], extra_v), cat(st['divergence'], extra_d), cat(st['temperature'], extra_t), cat(st['lnps'], extra_p)
     B = vor.shape[0]
@@ -236,3 +244,13 @@ def work(unit, rec):
       rec.exact(np.asarray(out.sim_time), np.asarray(root.sim_time), site='implicit_solve_leaves_sim_time_bit_identical', key=key)
     imp = jax.vmap(eq.implicit_terms)(root)
     rec.zero(np.asarray(imp.sim_time), site='implicit_terms_clock_tendency_zero', key=key)
+    # the semi-implicit leapfrog (centred and off-centred) advances the clock by dt per step as well
+    for alpha in (0.5, 0.625, 0.75):
+      key = ('leapfrog_clock', ctag, alpha)
+      lf = jax.jit(jax.vmap(ti.step_with_filters(ti.semi_implicit_leapfrog(eq, dt, alpha), [ti.robert_asselin_leapfrog_filter(0.05)])))
+      pair = (root, jax.vmap(ti.backward_forward_euler(eq, dt))(root))
+      for k in range(1, 4):
+        pair = lf(pair)
+        rec.close(np.asarray(pair[1].sim_time), t0 + (k + 1) * dt, scale=(k + 2) * max(1.0, t0), C=16, site='sim_time_advances_by_dt', key=key, sig={'integrator': 'semi_implicit_leapfrog', 'alpha': alpha})
+        rec.close(np.asarray(pair[0].sim_time), t0 + k * dt, scale=(k + 2) * max(1.0, t0), C=16, site='sim_time_advances_by_dt', key=key, sig={'integrator': 'semi_implicit_leapfrog', 'alpha': alpha, 'level': 'current'})
+      rec.case(key, transitions=3, outcome=np.asarray(pair[1].sim_time).tobytes())
